@@ -47,6 +47,22 @@ theorem stratified_accepted (g : Graph) (rank : Nat → Nat) (h : IsStratificati
     have h2 := mono _ _ hreach
     omega
 
+/-- "No negative edge on a cycle" is exactly the textbook notion: a stratification (rank function with
+    pos ⇒ ≤, neg ⇒ <) exists.  (⇐ is `stratified_accepted`; ⇒ ranks a relation by the number of relations
+    it transitively depends on.) -/
+theorem no_neg_cycle_iff_stratifiable (g : Graph) : ¬ NegCycle g ↔ ∃ rank, IsStratification g rank := by
+  constructor
+  · intro h; exact ⟨rankOf g, rankOf_stratifies g h⟩
+  · rintro ⟨rank, hr⟩ hn
+    have := stratified_accepted g rank hr
+    rw [rejects_iff.mpr hn] at this
+    cases this
+
+/-- the code rejects exactly the rule sets that have no stratification. -/
+theorem check_iff_not_stratifiable (g : Graph) : rejects g = true ↔ ¬ ∃ rank, IsStratification g rank := by
+  rw [← no_neg_cycle_iff_stratifiable, Classical.not_not]
+  exact rejects_iff
+
 example : IsStratification [⟨3, 2, true⟩, ⟨2, 2, false⟩] (fun n => if n = 3 then 1 else 0) := by
   intro e he
   simp only [List.mem_cons, List.not_mem_nil, or_false] at he
